@@ -10,7 +10,9 @@ CONSTANTS
   UseMerge = FALSE
   UseSnap = FALSE
   UseDup = FALSE
+  RmVia = FALSE
   DumpReset = FALSE
+  ScriptName = "none"
   Reps <- MCReps
   Actors <- MCActors
   Keys <- MCKeys
